@@ -3,7 +3,7 @@
 Copies a confirmed seeded change from /tmp/seed/out/<id> into /verif/seeded/<seedname>/."""
 import sys, os, shutil, json
 sid, name, prop, verdict, rule, needs = sys.argv[1:7]
-src = f"/tmp/seed/out/{sid}"
+src = os.environ.get("SEED_BASE", "/tmp/seed") + f"/out/{sid}"
 dst = f"/verif/seeded/{name}"
 os.makedirs(dst, exist_ok=True)
 shutil.copy(f"{src}/patch.diff", f"{dst}/patch.diff")
